@@ -77,6 +77,16 @@ let () =
               | ["H"; "samp"; k; _; _] -> (KSampling (z_of_string k), z_of_string k)
               | ["H"; "pass"; _; _; _] -> (KPassthrough, Z0)
               | _ -> failwith "bad H head") in
+          (* "dyn!0,3": the wrapped collector refuses its 0th and 3rd Add call (harness c14Flaky). What the event
+             collector hands over does not depend on it (the model's RWritten = "Collector.Add was called with d");
+             the refused ones are missing from what is decoded and their AddEvent returns the error *)
+          let failing = (match split_ws hd with
+              | [_; _; _; under; _] ->
+                  (match String.index_opt under '!' with
+                   | Some i -> List.map int_of_string (String.split_on_char ',' (String.sub under (i + 1) (String.length under - i - 1)))
+                   | None -> [])
+              | _ -> []) in
+          let flaky = failing <> [] in
           let ops = if String.trim opss = "" || String.trim opss = "-" then [] else List.map op_of_string (String.split_on_char ';' (String.trim opss)) in
           let i_added = perfs_of_string addeds in
           let errs = if String.trim errs = "-" then "" else String.trim errs in
@@ -95,9 +105,10 @@ let () =
           let errflags = (try Some (List.init (String.length errs) (fun i -> match errs.[i] with
               | '0' -> false | '1' -> true | _ -> raise Exit)) with Exit -> add "Resolve failed"; None) in
           (match errflags with
-           | Some f -> if not (c14_ok_errors is_nil f) then add "c14_ok_errors=false (nil events, and only those, must be refused)"
+           | Some f -> if not flaky && not (c14_ok_errors is_nil f) then add "c14_ok_errors=false (nil events, and only those, must be refused)"
            | None -> ());
           (match i_written with
+           | Some _ when flaky -> ()   (* part of the written samples were refused by the wrapped collector: correspondence only *)
            | Some w ->
                (match kind with
                 | KCumulative -> if not (c14_ok_cumulative i_added w) then add "c14_ok_cumulative=false"
@@ -107,9 +118,14 @@ let () =
           if !why <> [] then violation (String.concat "; " (List.rev !why));
           (* ---- correspondence with the model ---- *)
           let (st, tr) = model_obs_run kind ops in
-          let m_added = added_of tr and m_written = written_of tr in
-          let m_errs = String.concat "" (List.map (fun o -> match o.o_res with
-              | RRefused -> "1" | RWritten _ | RSkipped -> "0" | RPanic -> "P" | RNoObject -> "?") tr) in
+          let m_added = added_of tr in
+          let calls = ref 0 in
+          let refused_call () = let k = !calls in incr calls; List.mem k failing in
+          let marks = List.map (fun o -> match o.o_res with
+              | RWritten d -> if refused_call () then ("1", None) else ("0", Some d)
+              | RRefused -> ("1", None) | RSkipped -> ("0", None) | RPanic -> ("P", None) | RNoObject -> ("?", None)) tr in
+          let m_errs = String.concat "" (List.map fst marks) in
+          let m_written = List.filter_map snd marks in
           let diffs = ref [] in
           if string_of_perfs m_added <> string_of_perfs i_added then
             diffs := ("added model=" ^ string_of_perfs m_added) :: !diffs;
